@@ -360,7 +360,7 @@ def run(ctx):
            "Definition RTOL : float := %s.\nDefinition RMAX : Z := %s.\n" % (f1(TOL), f1(TOL_ST), f1(ricc_tol), zl(ricc_maxit)))
 
     # ================================================================ finite horizon
-    n_fin = 150 if thorough else 60
+    n_fin = 400 if thorough else 60
     rec_f, rec_q, sim_f, sim_q = [], [], [], []
     meta_rf, meta_rq, meta_sf, meta_sq = [], [], [], []
     for t in range(n_fin):
@@ -372,6 +372,8 @@ def run(ctx):
         if p is None:
             continue
         T = rng.choice([1, 2, 3, 4, 5, 6, 8, 10, 12])
+        if n <= 2 and k <= 2 and rng.random() < 0.5:
+            T = rng.choice([1, 2, 3])          # small horizons: also run by the exact Q instance
         scalar_style = (n == 1 and k == 1 and rng.random() < 0.5)
         lq = make_lq(qe, p, T=T, passN=rng.random() < 0.5)
         inp = pinput(p, fn="LQ.update_values", T=T)
@@ -536,7 +538,7 @@ def run(ctx):
         ctx.mismatch("C07.Model.update_values error status (singular S1) vs LQ.update_values", {"case": i})
 
     # ================================================================ stationary values
-    n_st = 120 if thorough else 45
+    n_st = 300 if thorough else 45
     st_cases, st_meta, seq_cases, seq_meta = [], [], [], []
     for t in range(n_st):
         n, k = rng.randint(1, 4), rng.randint(1, 3)
